@@ -9,7 +9,9 @@ Inductive xop :=
 | XReset                                       (* a new, empty database (same seed) *)
 | XScan (chain : list cout) (del : bool)       (* scan::scan from the first block; owner::scan = a
                                                   full refresh of the active account, then this *)
-| XKernel (parent : N) (missing : list N).     (* update_txs_via_kernel: [missing] = ids of the
+| XKernel (parent : N) (missing : list N)
+| XRc (rc : list Z).                           (* a call that failed before touching the wallet (node
+                                                  outage): the state is unchanged, the result is [rc] *)     (* update_txs_via_kernel: [missing] = ids of the
                                                   account's entries whose kernel the node lacks *)
 
 (** owner::update_txs_via_kernel (step 2 of update_wallet_state): an outstanding entry of the
@@ -28,6 +30,7 @@ Definition xstep (w : wallet) (x : xop) : wallet * list Z :=
   | XReset => (empty_wallet, [0%Z])
   | XScan chain del => (scan_repair w chain del, [0%Z])
   | XKernel parent missing => (kernel_confirm w parent missing, [0%Z])
+  | XRc rc => (w, rc)
   end.
 
 Fixpoint xtrace (w : wallet) (ops : list xop) : list (list (list (list Z))) :=
